@@ -162,7 +162,7 @@ def fmtGrids (g : Grids Q) : String := s!"{fmtBool g.equal}:{fmtOptGrid g.sol}:{
 
 def parseTobs (s : String) : Option (TimeObsArg Q) :=
   if s = "none" then some .noneVal
-  else if s.startsWith "str:" then some (.str (s.drop 4).toString)
+  else if s.startsWith "str:" then some (.str (s.drop 4).toString.toLower)
   else if s.startsWith "v:" then (parseVec (s.drop 2).toString).map .explicit
   else none
 
@@ -190,8 +190,8 @@ def fmtBranch : Branch → String
   | .direct => "direct" | .interp => "interp" | .refuse => "refuse"
 
 /-- levels (row k = level k) to space × time rows -/
-def levelsToU (n : Nat) (levels : List (Vec Q)) : List (List Q) :=
-  (List.range n).map fun i => levels.map fun u => u i
+def levelsToU (n : Nat) (levels : List (Array Q)) : List (List Q) :=
+  (List.range n).map fun i => levels.map fun u => rd u i
 
 def runSteadyOps (s : Steady (List Q) Q Q) (n : Nat) : List String → Option (List String)
   | [] => some []
@@ -238,7 +238,7 @@ def step : List String → String
           match solveTime n m (fam.form p) (mkSolver n kind) ts with
           | .error e => fmtErr e
           | .ok (levels, info) =>
-            s!"ok {fmtMat (levels.map (vecL n))} {fmtInfo info} {fmtVec (formCalls m ts)}"
+            s!"ok {fmtMat (levels.map fun u => vecL n (rd u))} {fmtInfo info} {fmtVec (formCalls m ts)}"
     | _, _, _ => "bad-op"
   | ["grids", ops] =>
     match parseGridOps ops with
